@@ -27,7 +27,8 @@ LEVEL_TEXT = ("held on N generated delivery schedules (1-4 streams, per-stream f
               "existing suspension points; the ready queue is never permuted.")
 LEVEL_NOTE = ("per-stream order preserved; backlog of every stream kept below the receiver capacity (50) by the "
               "driver; 3-phase engines are driven with per-phase streams that start at the same or at different "
-              "timestamps")
+              "timestamps"
+              " Build phase: 3-phase engines whose phases begin at different timestamps are judged like all others; receivers of capacity 200 with streams beginning 51-120 samples apart; a fallback-term tier (C19's driver).")
 RULE = ("seeded schedules: list of (stream, burst, yields) steps over N=15..60 indices; kinds flat / composed / 3phase. "
         "distinct = canonical schedule JSON; non-trivial = >=2 streams and >=10 outputs decoded")
 B = 1000
